@@ -25,7 +25,21 @@ THEOREMS = {"C12": ["strip_path_spec", "strip_path_basename", "unquote_quote", "
                     "apply_patch_unified_reject_reparses", "apply_patch_context_reject_reparses",
                     "apply_patch_unified_reject_reparses_checked", "apply_patch_context_reject_reparses_checked",
                     "hdr_ok_simple", "wf_hunk_shift", "wf_hunk_c_shift", "read_back_names", "ex_unified_reject",
-                    "ex_context_reject", "ex_runs", "blank_name_not_read_back", "negative_start_stops_at_zero"],
+                    "ex_context_reject", "ex_runs", "blank_name_not_read_back", "negative_start_stops_at_zero",
+                    "rejects_wf_unified", "rejects_wf_context", "wf_hunk_shift_any", "rejects_always_wf",
+                    "rejects_always_wf_starts", "wf_hunk_c_shift_upper", "rejects_wf_context_upper",
+                    "shift_start_exact_iff", "shift_hunk_exact_iff", "rejects_exact", "exact_shift_room",
+                    "old_room_of_disjoint", "diff_ordered_disjoint", "old_room_of_touching", "new_room_no_shrink",
+                    "diff_style_room", "diff_style_c_rooms", "wf_hunk_reverse", "wf_hunk_two_both",
+                    "rejected_wf_unified", "rejected_wf_context", "apply_patch_unified_reject_always_reparses",
+                    "rejected_always_wf", "apply_patch_context_reject_always_reparses",
+                    "apply_patch_context_reject_reparses_ordered", "apply_patch_reject_always_reparses",
+                    "rejected_exact", "apply_patch_unified_reject_reparses_room",
+                    "apply_patch_context_reject_reparses_room", "apply_patch_unified_reject_reparses_diff_input",
+                    "genuine_diff_rooms", "new_room_of_consistent", "apply_patch_unified_reject_reparses_genuine_diff",
+                    "apply_patch_unified_reject_reparses_diff_input_force",
+                    "apply_patch_context_reject_reparses_diff_input",
+                    "apply_patch_context_reject_reparses_diff_input_force", "apply_patch_reject_reparses_diff_input"],
             "C14": ["split_lines_roundtrip", "split_lines_wf", "terminator_keep", "terminator_lf", "terminator_crlf",
                     "final_newline_iff", "apply_output_lines"],
             "C20": ["define_eval"]}
